@@ -25,3 +25,4 @@ def check(ctx):
     spanrules.rule_signals_forced(ctx, facts, "R6", kinds=("DropCollect",))
     spsc.rule_force_send_keeps(ctx, facts, "R6")
     spsc.rule_replay_keeps(ctx, facts, "R6")
+    spsc.rule_parked_visible_to_collector(ctx, facts, "R7")
